@@ -18,6 +18,7 @@ RULES_DOC = dict(common.SHARED_DOC)
 RULES_DOC["X7"] = common.X7_DOC
 RULES_DOC["X4"] = common.X4_DOC
 RULES_DOC["X5"] = common.X5_DOC
+RULES_DOC["R7"] = "ABT_future_test reports ready exactly when counter == num_compartments (no arithmetic on either side): the same condition under which ABT_future_set runs the callback and releases the waiters, so test and wait never disagree"
 RULES_DOC["R6"] = "= C06.R5: the scheduler of a blocked waiter's pool keeps running while the waiter is blocked, for every shared access mode: the set that makes the eventual / future ready pushes the waiter to a pool that is still consumed"
 RULES_DOC["R5"] = "= C06.R2 and C06.R1/R3/R4: the waiter that a set wakes is pushed before it stops being counted as blocked, and is counted on the pool it will be resumed on (a woken waiter is never stranded in a pool whose stream already terminated)"
 RULES_DOC["X6"] = common.X6_DOC
@@ -306,6 +307,31 @@ def rule_R4(P, rep):
     rep.min_instances("R4", 5)
 
 
+def rule_R7(P, rep):
+    import re
+    from abtverif import canon
+    """ABT_future_test reports ready exactly when all compartments are set: the value it stores is decided by
+    `counter == num_compartments` (the condition under which ABT_future_set ran the callback and woke the waiters), with
+    no arithmetic on either side."""
+    F = P.fn("ABT_future_test", "src/futures.c", flat=True)
+    outp = [p_["n"] for p_ in F.params if p_["t"].replace(" ", "") == "ABT_bool*"]
+    rep.need(len(outp) == 1, "ABT_future_test: out-parameter not found")
+    labs = []
+    for i, nd in enumerate(F.nodes):
+        if nd and nd.get("k") == "bin" and nd["op"] in ("==", "!=", "<", "<=", ">", ">=") and F.block_of(i) is not None or \
+                (nd and nd.get("k") == "bin" and nd["op"] in ("==", "!=", "<", "<=", ">", ">=")):
+            txt = canon.expr(F, i)
+            if "ABTI_future::counter" in txt and "num_compartments" in txt:
+                lab, _flip = canon.cond(F, i)       # `!=`, `>=` ... are normalised to `==` / `<` (polarity aside)
+                labs.append(re.sub(r"ABTD_atomic_\w+\(&?(ABTI_future::counter)\)", r"\1", lab))
+    rep.need(labs, "ABT_future_test: no comparison of counter with num_compartments")
+    want = ("ABTI_future::counter == ABTI_future::num_compartments", "ABTI_future::num_compartments == ABTI_future::counter",
+            "ABTI_future::counter < ABTI_future::num_compartments")     # counter never exceeds num_compartments (C09.R2)
+    rep.ob("R7", "ABT_future_test: ready iff counter == num_compartments", all(l in want for l in labs),
+           "readiness is decided by `%s`: ABT_future_test and ABT_future_wait disagree while one compartment is still unset" %
+           "; ".join(labs), loc="%s:%d" % (F.file, F.line), site="future_test/predicate")
+
+
 def run(P, rep, tier):
     common.rule_X7(P, rep, records=('ABTI_eventual', 'ABTI_future'))
     common.rule_X6(P, rep)
@@ -320,3 +346,4 @@ def run(P, rep, tier):
     common.borrow(rep, P, C06.rule_R2, "R5")
     common.borrow(rep, P, C06.rule_R1_R3_R4, "R5")
     common.borrow(rep, P, C06.rule_R5, "R6")
+    rule_R7(P, rep)
